@@ -88,10 +88,10 @@ func (h *Hub) checkStallLocked() {
 type half struct {
 	hub     *Hub
 	buf     []byte
-	eof     bool // writer closed (or stall): reader gets io.EOF after draining
-	rclosed bool // reader side closed
+	eof     bool         // writer closed (or stall): reader gets io.EOF after draining
+	rclosed bool         // reader side closed
 	tap     func([]byte) // observes every byte written (under the hub lock)
-	postEOF int  // reads served after EOF (spin detector)
+	postEOF int          // reads served after EOF (spin detector)
 	filter  func([]byte) [][]byte
 }
 
@@ -181,14 +181,15 @@ func (c *Conn) Write(p []byte) (int, error) {
 		// peer gone: like a TCP reset
 		return 0, errors.New("wire: write on closed connection")
 	}
+	// the tap observes what the endpoint wrote (before any man-in-the-middle filter)
+	if c.out.tap != nil {
+		c.out.tap(p)
+	}
 	chunks := [][]byte{p}
 	if c.out.filter != nil {
 		chunks = c.out.filter(append([]byte(nil), p...))
 	}
 	for _, ch := range chunks {
-		if c.out.tap != nil {
-			c.out.tap(ch)
-		}
 		c.out.buf = append(c.out.buf, ch...)
 	}
 	h.cond.Broadcast()
